@@ -1,7 +1,7 @@
 (* C12 - shape constraints return exactly the sensors on the constrained side.  Model: Geo/Shapes.v over Qc. *)
 From Coq Require Import List Arith ZArith QArith Qcanon Bool Permutation.
 Import ListNotations.
-From PS Require Import Geo.Shapes Geo.ShapesProofs.
+From PS Require Import Geo.Shapes Geo.ShapesProofs Geo.PolygonProofs.
 Open Scope Qc_scope.
 
 (* for EVERY shape predicate, every ranking and both loc values: the result is exactly the set of ranked sensors on
@@ -51,14 +51,61 @@ Theorem C12_ellipse_frame_is_rotation : forall cx cy c s p, c * c + s * s = 1 ->
 Proof. exact ellipse_uv_rotation. Qed.
 Print Assumptions C12_ellipse_frame_is_rotation.
 
-(* polygon (partial: no independent characterisation of "inside a simple polygon" is proved): the crossing-parity
-   answer does not depend on the starting vertex nor on the orientation of an edge *)
+(* polygon: the crossing-parity answer does not depend on the starting vertex nor on the orientation of an edge
+   (named _partial when the polygon clause had no independent characterisation; the theorems below now supply one) *)
 Theorem C12_polygon_rotate_invariant_partial : forall k poly p, polygon_in (Nat.iter k rot1 poly) p = polygon_in poly p.
 Proof. exact polygon_rotate_invariant. Qed.
 Print Assumptions C12_polygon_rotate_invariant_partial.
 Theorem C12_polygon_edge_orientation : forall p a b, edge_crosses p (a, b) = edge_crosses p (b, a).
 Proof. exact edge_crosses_sym. Qed.
 Print Assumptions C12_polygon_edge_orientation.
+
+(* polygon, meaning.  (a) The test applied to one edge - with its division - is an orientation test: the edge is
+   counted iff it spans the height of the point (lower end excluded, upper end included) and the point lies on the
+   far side of it. *)
+Theorem C12_polygon_edge_is_orientation_test : forall p a b,
+  edge_crosses p (a, b) = true <->
+  (snd a - snd p < 0 /\ 0 <= snd b - snd p /\ orient a b p < 0) \/
+  (snd b - snd p < 0 /\ 0 <= snd a - snd p /\ 0 < orient a b p).
+Proof. exact edge_crosses_orient. Qed.
+Print Assumptions C12_polygon_edge_is_orientation_test.
+
+(* (b) a triangle of either orientation, a point on none of its three edge lines: true exactly for the points strictly
+   inside (same side of the three directed edges) *)
+Theorem C12_triangle_in_iff : forall a b c p, tri_general p (a, b, c) -> polygon_in [a; b; c] p = tri_inb p (a, b, c).
+Proof. exact triangle_in_iff. Qed.
+Print Assumptions C12_triangle_in_iff.
+
+(* (c) EVERY vertex list (convex or not, self-intersecting or not), every point in general position with respect to
+   the fan triangles (a, v_i, v_i+1): the answer is the parity of the number of fan triangles containing the point -
+   the even-odd rule.  For a convex polygon the fan triangles tile it, so this is membership. *)
+Theorem C12_polygon_even_odd : forall a l p, (forall t, In t (fan a l) -> tri_general p t) ->
+  polygon_in (a :: l) p = parity (map (tri_inb p) (fan a l)).
+Proof. exact polygon_even_odd. Qed.
+Print Assumptions C12_polygon_even_odd.
+
+(* (d) axis-parallel rectangles: the exact answer including the boundary convention of the source
+   (left and lower sides excluded, right and upper sides included) *)
+Theorem C12_rectangle_in_iff : forall xa xb ya yb p, xa <= xb -> ya <= yb ->
+  polygon_in [(xa, ya); (xb, ya); (xb, yb); (xa, yb)] p =
+  Qcltb xa (fst p) && Qcleb (fst p) xb && Qcltb ya (snd p) && Qcleb (snd p) yb.
+Proof. exact rectangle_in_iff. Qed.
+Print Assumptions C12_rectangle_in_iff.
+
+(* the hypotheses of (c) are met by a non-convex pentagon with a point of its notch and a point of its body *)
+Definition C12_pentagon := [(q 0 1, q 0 1); (q 4 1, q 0 1); (q 4 1, q 4 1); (q 2 1, q 1 1); (q 0 1, q 4 1)].
+Lemma C12_nz : forall x : Qc, Qeq_bool (this x) 0 = false -> x <> 0.
+Proof. intros x H E. rewrite E in H. discriminate H. Qed.
+Example C12_polygon_hypotheses_met :
+  Forall (tri_general (q 2 1, q 5 2)) (fan (q 0 1, q 0 1) (tl C12_pentagon)) /\
+  polygon_in C12_pentagon (q 2 1, q 5 2) = false /\
+  Forall (tri_general (q 1 1, q 1 3)) (fan (q 0 1, q 0 1) (tl C12_pentagon)) /\
+  polygon_in C12_pentagon (q 1 1, q 1 3) = true.
+Proof.
+  unfold C12_pentagon. cbn [tl fan].
+  split; [|split; [vm_compute; reflexivity|split; [|vm_compute; reflexivity]]];
+  repeat (apply Forall_cons; [cbn [tri_general]; repeat split; apply C12_nz; vm_compute; reflexivity|]); apply Forall_nil.
+Qed.
 
 (* grid coordinates: x = index mod side, y = index div side, inverse to x + side * y *)
 Theorem C12_grid_coords_inverse : forall side idx x y,
